@@ -96,6 +96,9 @@ class Suite:
         self.paths += len(v.an.impl_results)
         fname = ('eval' if p.kind == 'binding' else 'on') + p.suffix()
         if v.status == 'unsat':
+            every = 40 if C.tier() == 'thorough' else 400
+            if p.kind == 'binding' and query_name == 'value' and st['programs'] % every == 3:
+                self.validate_translator(p, doc, cli, hdr)
             if st['programs'] % 97 == 1 or len(self.samples) < 3:
                 if not D.witness(v.an):
                     self.witness_fail += 1
@@ -138,6 +141,36 @@ class Suite:
             self.samples.append({'qml': p.source(), 'query': query_name, 'result': 'sat', 'replayed': ok, 'model': info.get('model')})
 
     # ------------------------------------------------------------------------------------------------
+    def validate_translator(self, p, doc, cli, hdr):
+        """Translator validation: pick a concrete state in which the source is defined (z3 model), compute the reference
+        value under it, run the *compiled* emitted function on that state with the mock: the three must agree.
+        A disagreement means one of my encoders (or the mock) is wrong -> the run is inconclusive, never a VIOLATION."""
+        import tempfile
+        def defined_query(an):
+            out = []
+            for (q, kind, rv) in an.ref_outs:
+                x = rv if kind == 'return' else q.cv
+                if x is not None and x[0] is not None:
+                    out.append(z3.And(q.pc, q.d, q.vok, *[z3.Not(c) for c, _ in an.impl_bad]))
+            return out
+        d = os.path.join(self.work, 'tval-%d' % self.stats['translator_validations'])
+        try:
+            v = D.Verdict('sat')
+            ok, info = replay_value(self, p, doc, cli, hdr, v, d, defined_query)
+        except Exception:
+            ok, info = None, {'error': traceback.format_exc()[-800:]}
+        self.stats['translator_validations'] += 1
+        if ok is False:
+            self.stats['translator_validations_agree'] += 1
+        elif ok is True:
+            self.res.inconc(f'translator validation: compiled header and encodings disagree for\n{p.source()}\nexpected {info.get("expected")} actual {info.get("actual")} model {info.get("model")}')
+        else:
+            if 'not replayable' in str(info.get('error')) or 'without concrete model' in str(info.get('error')):
+                self.stats['translator_validations'] -= 1
+            else:
+                self.res.inconc(f'translator validation could not run: {str(info.get("error"))[:400]}')
+        shutil.rmtree(d, ignore_errors=True)
+
     def finish(self, extra=None):
         st = self.stats
         cov = self.res.coverage
@@ -152,6 +185,7 @@ class Suite:
         cov['undecided_samples'] = self.undecided[:5]
         cov['emitted_paths_executed'] = self.paths
         cov['vacuity_witnesses_checked'] = st['witnesses_checked']
+        cov['translator_validations(compiled header vs encodings on a concrete state)'] = f"{st['translator_validations_agree']}/{st['translator_validations']} agree"
         cov['programs_by_family'] = dict(self.by_tag)
         cov['rejected_by_cli'] = dict(self.rejected)
         cov['unexpected_rejections'] = self.unexpected_rejections[:10]
